@@ -16,7 +16,7 @@ func init() {
 		Decided: "C19.a no function on the request path stores, map-updates, appends in place or copies into a shared object (Container, WebService, Route, CORS configuration, ...), a package-level variable or a variable captured from configuration-time code, unless the base is a request-local copy; " +
 			"C19.b NewRequest/NewResponse build fresh objects with fresh maps and no per-request object (Request, Response, FilterChain, their maps) is ever stored into a shared-type field or a global; C19.c selected routes are per-request copies; " +
 			"C19.d everything controlled by the trace flag only logs (no return, no store, nothing computed there is used afterwards); C19.e no result-affecting nondeterminism source on the request path (map iteration order, multi-way select, time, math/rand); " +
-			"C19.f the package-level configuration variables read on the request path are written only by configuration code. C19.g = C13.a (pooled objects are used exclusively between acquire and release).",
+			"C19.f the package-level configuration variables read on the request path are written only by configuration code. C19.g = C13.a (pooled objects are used exclusively between acquire and release). C19.h = C16.g (pooled byte containers are empty on reuse).",
 		NotDecided:  "byte-equality of responses (a runtime comparison); races inside user callbacks; net/http's own state; caches inside the compressor providers (their content is unobservable given C13.b).",
 		Assumptions: []string{"objects of external types reached on the request path (http.Request, bytes.Buffer, http.Header of this request/response) are per request"},
 		Rules: []Rule{
@@ -38,6 +38,8 @@ func init() {
 			{ID: "C19.f", Template: "T-OWN", Required: true,
 				Doc: "Package-level variables read on the request path (trace, traceLogger, default MIME types, the compressor provider, the accessor registry, encoder hooks, DefaultContainer, the logger) have no store reachable from a request root: they are configuration, not per-request state.",
 				Run: ruleC19f},
+			{ID: "C19.h", Template: "T-FRESH", Required: true, Run: rulePooledBytesClean,
+				Doc: "No request leaves bytes behind for the next: pooled byte containers are emptied before Put or after Get (same obligations as C16.g)."},
 			{ID: "C19.g", Template: "T-TYPESTATE", Required: true,
 				Doc: "Objects shared between requests through a pool (compressors, decompressors) are used exclusively between acquire and release, released once, and not used afterwards (same obligations as C13.a): otherwise one request's output or input is another's.",
 				Run: ruleC13a},
@@ -64,6 +66,9 @@ func effectRule(c *Ctx, fns []*ssa.Function) {
 				}
 				r := e.classifyAddr(x.Addr, 0)
 				construct := "store through " + addrDesc(x.Addr)
+				if !r.OK && p.keptCopyWrite(x.Addr, x.Val) {
+					r = effectVerdict{true, "a copy of the registration state that every function changing the registration keeps in step (C11.l) and whose content is computed from that state alone: it says nothing about this request"}
+				}
 				if r.OK {
 					c.ok(name, construct, p.ipos(i), r.Why)
 				} else {
@@ -130,6 +135,10 @@ func effectRule(c *Ctx, fns []*ssa.Function) {
 					c.bad(name, shortCallee(cc)+" of "+valueDesc(p, strip(arg)), p.ipos(i), "in-place sort of shared storage: "+why)
 				}
 			case "(*sync.Map).Store", "(*sync.Map).LoadOrStore", "(*sync.Map).Delete", "(*sync/atomic.Value).Store":
+				if calleeName(cc) == "(*sync/atomic.Value).Store" && p.keptCopyWrite(cc.Args[0], cc.Args[1]) {
+					c.ok(name, shortCallee(cc), p.ipos(i), "a copy of the registration state that every function changing the registration keeps in step (C11.l), computed from that state alone")
+					return
+				}
 				c.bad(name, shortCallee(cc), p.ipos(i), "request-path code writes a synchronised cache: state shared between requests")
 			}
 		})
